@@ -180,7 +180,7 @@ def extract_fragment(mi, fnode, fragment, head=None):
         frag.first_text = ast.unparse(stmts[a])
         frag.first_stmt = stmts[a]
         return frag
-    cls = {"while": ast.While, "for": ast.For, "forbody": ast.For, "if": ast.If}[kind]
+    cls = {"while": ast.While, "for": ast.For, "forbody": ast.For, "whilebody": ast.While, "if": ast.If}[kind]
     found = []
     todo = list(fnode.body)
     allnodes = []
@@ -198,7 +198,7 @@ def extract_fragment(mi, fnode, fragment, head=None):
     if k >= len(found):
         raise KeyError("no %s loop number %d in %s" % (kind, k, fnode.name))
     body = [found[k]]
-    if kind == "forbody":
+    if kind in ("forbody", "whilebody"):
         # ONE iteration of the loop: its body, run once (so that `continue` / `break` in it end the iteration); the loop
         # variables are parameters of the fragment
         once = ast.For(target=ast.Name(id="__once", ctx=ast.Store()), iter=ast.Tuple(elts=[ast.Constant(value=None)], ctx=ast.Load()),
